@@ -39,7 +39,19 @@ def _mk_exc(kind, idx, opi=0):
     raise AssertionError(kind)
 
 
+class BadRepr:
+    """a task argument whose repr() raises"""
+
+    def __init__(self, v):
+        self.v = v
+
+    def __repr__(self):
+        raise RuntimeError('this object has no repr')
+
+
 def elem_of(kind, i):
+    if kind == 'badrepr':
+        return BadRepr(i)
     if kind == 'scalar':
         return i
     if kind == 'tuple':
@@ -60,6 +72,8 @@ def elem_of(kind, i):
 def idx_of_call(kind, args, kwargs):
     """index of the task from what the user function received, and whether the unpacking convention was respected"""
     try:
+        if kind == 'badrepr':
+            return (args[0].v, len(args) == 1 and not kwargs)
         if kind == 'scalar':
             return (args[0], len(args) == 1 and not kwargs)
         if kind == 'tuple':
@@ -170,6 +184,8 @@ def task_id_of(task, ordered, ekind, numpy_in):
     if numpy_in:
         a = a[0] if isinstance(a, tuple) else a
         return int(a[0][0])
+    if ekind == 'badrepr':
+        return a.v
     if ekind == 'scalar':
         return a
     if ekind in ('tuple', 'tuple1', 'list'):
